@@ -145,7 +145,7 @@ class TensorEval:
                 raise _Ret(self.ev(f, st.value, env) if st.value is not None else None)
             if isinstance(st, ast.For) and not st.orelse:
                 it = self.ev(f, st.iter, env)
-                if not isinstance(it, (range, list, tuple)) or len(it) > 64:
+                if not isinstance(it, (range, list, tuple)) or len(it) > (4096 if self.numeric else 64):
                     raise Unknown(f'loop over `{norm(st.iter)[:40]}`')
                 for x in it:
                     self.bind_target(st.target, x, env)
@@ -264,6 +264,8 @@ class TensorEval:
         if isinstance(op, (ast.BitAnd, ast.BitOr, ast.BitXor)):
             import operator
             return {ast.BitAnd: operator.and_, ast.BitOr: operator.or_, ast.BitXor: operator.xor}[type(op)](l, r)
+        if isinstance(op, (ast.LShift, ast.RShift)) and all(isinstance(x, (int, np.integer)) or (isinstance(x, np.ndarray) and x.dtype != object and x.dtype.kind in 'iu') for x in (l, r)):
+            return (l << r) if isinstance(op, ast.LShift) else (l >> r)
         if isinstance(op, (ast.FloorDiv, ast.Mod)) and isinstance(l, (int, np.integer)) and isinstance(r, (int, np.integer)) and r != 0:
             return l // r if isinstance(op, ast.FloorDiv) else l % r
         if isinstance(op, ast.MatMult):
@@ -581,9 +583,14 @@ class TensorEval:
             out = np.empty(args[0], dtype=object)
             out[...] = Q.sym('UNINITIALISED')
             return out
+        if self.numeric and np_call and name in ('array', 'asarray') and len(args) == 1 and isinstance(args[0], (list, tuple, np.ndarray)):
+            flat = np.array(args[0], dtype=object).ravel().tolist() if not isinstance(args[0], np.ndarray) else []
+            if all(isinstance(x, (int, float, bool, np.integer, np.floating)) for x in flat) and not (isinstance(args[0], np.ndarray) and args[0].dtype == object):
+                dt = (dtype_txt or '').strip('\'"').split('.')[-1]
+                return np.array(args[0], dtype=dt) if dt in ('int32', 'int64', 'uint8', 'uint16', 'uint32', 'uint64', 'int8', 'int16', 'float32', 'float64', 'bool') else np.array(args[0])
         if self.numeric and np_call and name in ('zeros', 'ones', 'empty') and args:
             dt = (dtype_txt or 'float64').strip('\'"').split('.')[-1]
-            dt = {'bool_': bool, 'bool': bool}.get(dt, dt if dt in ('int32', 'int64', 'uint8', 'uint32', 'float32', 'float64', 'int') else 'float64')
+            dt = {'bool_': bool, 'bool': bool}.get(dt, dt if dt in ('int8', 'int16', 'int32', 'int64', 'uint8', 'uint16', 'uint32', 'uint64', 'float32', 'float64', 'int') else 'float64')
             return getattr(np, 'zeros' if name == 'empty' else name)(args[0], dtype=dt)
         if np_call and name in ('where', 'nonzero', 'flatnonzero', 'bitwise_and', 'bitwise_or', 'logical_and', 'logical_or', 'logical_not', 'vstack', 'hstack', 'tile', 'take',
                                 'argsort', 'sort', 'unique', 'isin', 'any', 'all', 'count_nonzero', 'abs', 'absolute', 'sign', 'minimum', 'maximum', 'clip', 'repeat', 'column_stack') and args \
